@@ -82,9 +82,10 @@ EXTRA = [
          "    injection = AbsoluteModelRef.inject(mapping)\n    with injection:\n"),
     ]),
     ("candidates_renamed", "the candidate list of _optimize_union is renamed", [
-        (J + "generator.py", "        types = [self.optimize_type(t) for t in other_types]\n", "        cands = [self.optimize_type(t) for t in other_types]\n"),
-        (J + "generator.py", "        if len(types) > 1:\n            if Unknown in types:\n                types.remove(Unknown)\n",
-         "        if len(cands) > 1:\n            if Unknown in cands:\n                cands.remove(Unknown)\n"),
+        (J + "generator.py", "        types = [self.optimize_type(t) for t in other_types]\n\n\n        if len(types) > 1:\n",
+         "        cands = [self.optimize_type(t) for t in other_types]\n\n\n        if len(cands) > 1:\n"),
+        (J + "generator.py", "            while Unknown in types:\n                types.remove(Unknown)\n",
+         "            while Unknown in cands:\n                cands.remove(Unknown)\n"),
         (J + "generator.py", "            if Null in types:\n                optional = True\n                while Null in types:\n                    types.remove(Null)\n",
          "            if Null in cands:\n                optional = True\n                while Null in cands:\n                    cands.remove(Null)\n"),
         (J + "generator.py", "            if not types:\n                meta_type = Unknown\n            else:\n                meta_type = DUnion(*types)\n",
